@@ -1,6 +1,6 @@
 (* Model/QcRun.v — the real-valued models instantiated at the extracted field (stdlib Qc). *)
 From Coq Require Import List QArith Qcanon.
-From AmiscV Require Import Field QcInst Lagr Fpi.
+From AmiscV Require Import Field QcInst Lagr Fpi Transf.
 
 Definition q_refine1 := @refine1 Qc qc_ops.
 Definition q_basis1 := @basis1 Qc qc_ops.
@@ -13,6 +13,11 @@ Definition q_misc_grad := @misc_grad Qc qc_ops.
 Definition q_mk_grid := @mk_grid Qc qc_ops.
 Definition q_trace_ok := @trace_ok Qc qc_ops.
 
+(* normalisation chains at Qc; the Log transform is not executable here (lg, ex are dummies and the driver never builds a Logt) *)
+Definition q_normalize := @normalize Qc qc_ops (fun x => x) (fun x => x).
+Definition q_denormalize := @denormalize Qc qc_ops (fun x => x) (fun x => x).
+Definition q_norm_domain := @norm_domain Qc qc_ops (fun x => x) (fun x => x).
+
 (* concrete instances used by refutation theorems (written here, under stdlib scopes) *)
 Import ListNotations.
 Open Scope Z_scope.
@@ -20,4 +25,11 @@ Open Scope Z_scope.
    the same configuration with the unit scaled by 1/100 *)
 Definition c17_unit := q_basis1 (qc_make 1 10) [qc_make 0 1; qc_make 1 1] [qc_make 1 1; qc_make (-1) 1] (qc_make 1 2).
 Definition c17_scaled := q_basis1 (qc_make 1 10) [qc_make 0 1; qc_make 1 100] [qc_make 1 1; qc_make (-1) 1] (qc_make 1 200).
+(* C16: a value stored in minmax-normalised form under the domain (0,10) and decoded after the domain was
+   updated to (-10,20): the transform minmax(2,4) defers to the variable's CURRENT domain *)
+Definition c16_stored := q_normalize [Minmax (qc_make 2 1) (qc_make 4 1) (qc_make 0 1) (qc_make 1 1)]
+                           (mkhyper (Some (qc_make 0 1, qc_make 10 1)) None) (qc_make 3 1).
+Definition c16_decoded_later := q_denormalize [Minmax (qc_make 2 1) (qc_make 4 1) (qc_make 0 1) (qc_make 1 1)]
+                           (mkhyper (Some (qc_make (-10) 1, qc_make 20 1)) None) c16_stored.
+Definition c16_original := qc_make 3 1.
 Close Scope Z_scope.
